@@ -40,7 +40,7 @@ impl Scanner {
     }
 
     pub(crate) fn from_file<P: AsRef<Path>>(path: P) -> Result<Self> {
-        let mut source = fs::read_to_string(&path)?;
+        let mut source = fs::read_to_string(&path).map_err(Error::IO)?;
         const BOM: &str = "\u{feff}";
         if source.starts_with(BOM) {
             source = source.split_off(BOM.len());
